@@ -580,7 +580,9 @@ func referenceTree(ms []member, t *otree) (string, bool) {
 			return "", false
 		}
 	}
-	if len(t.flags.nonWF) > 0 || len(t.flags.otherRep) > 0 {
+	// In an archive of directories and regular files the only other repetition
+	// is a directory member over a regular file, which both extractions skip.
+	if len(t.flags.nonWF) > 0 {
 		return "none", true
 	}
 	var want []oentry
